@@ -328,7 +328,7 @@ func (d *Dynamic) insertChildren(ctx vxfw.DrawContext, p *vxfw.Surface, ah int) 
 		ss := vxfw.NewSubSurface(colOffset, ah, s)
 		p.Children = slices.Insert(p.Children, 0, ss)
 
-		if d.scroll.top == 0 {
+		if d.scroll.top == 0 || ah <= 0 {
 			break
 		}
 
